@@ -1133,6 +1133,7 @@ ldb_versions_init(ldb_versions_t *vset,
   vset->prev_log_number = 0;
   vset->descriptor_file = NULL;
   vset->descriptor_log = NULL;
+  vset->descriptor_error = LDB_OK;
   vset->current = NULL;
 
   ldb_version_init(&vset->dummy_versions, vset);
@@ -1289,6 +1290,11 @@ ldb_versions_apply(ldb_versions_t *vset, ldb_edit_t *edit, ldb_mutex_t *mu) {
 
   fname[0] = '\0';
 
+  /* A failed append may have left a partial record at the end of the
+     MANIFEST. Anything appended after it would make the file unreadable. */
+  if (vset->descriptor_error != LDB_OK)
+    return vset->descriptor_error;
+
   if (edit->has_log_number) {
     assert(edit->log_number >= vset->log_number);
     assert(edit->log_number < vset->next_file_number);
@@ -1389,6 +1395,8 @@ ldb_versions_apply(ldb_versions_t *vset, ldb_edit_t *edit, ldb_mutex_t *mu) {
       vset->descriptor_file = NULL;
 
       ldb_remove_file(fname);
+    } else {
+      vset->descriptor_error = rc;
     }
   }
 
